@@ -1,9 +1,161 @@
-(* Property C07 (statements only). *)
+(* Property C07: LE / enhanced credit-based channels - exact byte stream, credit
+   discipline, progress.  Statements only, each closed by [exact].
+
+   The system (Model/LeCoc.v): one channel between two managers A and B; each end
+   has the sender half and the receiver half of LeCreditBasedChannel; the A->B and
+   B->A wires are FIFOs carrying K-frames and credit packets interleaved; a schedule
+   is any list of WriteA d / WriteB d / DeliverAB / DeliverBA (a delivery from an
+   empty wire is a stutter).  All theorems are for
+     - every pair of code paths (ka, kb) that filed the two channel objects in
+       le_coc_channels (LE / enhanced, initiator / acceptor),
+     - every pair of channel identifiers cid_a, cid_b (equal or different),
+     - every MTU in 1..65535, MPS >= 1, initial credits >= 1 on each side (the
+       legal ranges 23..65535 / 23..65533 / 1..65535 are inside),
+     - every schedule whose writes are non-empty. *)
 From Coq Require Import ZArith List Bool.
 From BV Require Import Model.LeCoc Proofs.LeCoc Gen.C07Tables.
 Import ListNotations.
 Open Scope Z_scope.
 
+(* ---- tie to the source: the le_coc_channels filing keys read from l2cap.py on
+   this run are the ones the model uses (all four: the destination CID) *)
 Theorem C07_filing_matches_source : forall k, gen_lecoc_keysel k = lecoc_keysel k.
 Proof. intros []; reflexivity. Qed.
 Print Assumptions C07_filing_matches_source.
+
+Theorem C07_ranges_covered :
+  params_ok gen_min_mtu gen_min_mps 1 /\ params_ok gen_max_mtu gen_max_mps gen_max_credits.
+Proof. split; constructor; vm_compute; intuition congruence. Qed.
+Print Assumptions C07_ranges_covered.
+
+Section C07.
+  Variables (ka kb : kind) (cid_a cid_b mtu_a mps_a cr_a mtu_b mps_b cr_b : Z).
+  Hypothesis (Ha : params_ok mtu_a mps_a cr_a) (Hb : params_ok mtu_b mps_b cr_b).
+  Let init := sys0 ka kb cid_a cid_b mtu_a mps_a cr_a mtu_b mps_b cr_b.
+
+  (* bytes handed to each sink are a prefix of the bytes written at the other end,
+     in order; when nothing is in flight they are equal and both drain()s are done *)
+  Theorem C07_stream_exact : forall ls, Forall label_ok ls ->
+    let '(st, rs) := l_run init ls in
+    (exists X, written_a ls = sunk_b rs ++ X) /\
+    (exists Y, written_b ls = sunk_a rs ++ Y) /\
+    (l_ab st = [] -> l_ba st = [] ->
+       written_a ls = sunk_b rs /\ written_b ls = sunk_a rs /\
+       s_drained (e_snd (l_a st)) = true /\ s_drained (e_snd (l_b st)) = true).
+  Proof. exact (stream_exact ka kb cid_a cid_b mtu_a mps_a cr_a mtu_b mps_b cr_b Ha Hb). Qed.
+
+  (* in every reachable state, both directions: sender's credits + frames in flight
+     + credits in flight = the receiver's count of credits it has out, which stays
+     within what it granted; the sender's credits are never negative *)
+  Theorem C07_credit_safe : forall ls, Forall label_ok ls ->
+    let st := fst (l_run init ls) in
+    ledger (e_snd (l_a st)) (e_rcv (l_b st)) (l_ab st) (l_ba st) cr_b /\
+    ledger (e_snd (l_b st)) (e_rcv (l_a st)) (l_ba st) (l_ab st) cr_a.
+  Proof. exact (credit_safe ka kb cid_a cid_b mtu_a mps_a cr_a mtu_b mps_b cr_b Ha Hb). Qed.
+
+  (* every K-frame on a wire is non-empty and within the MPS its receiver advertised *)
+  Theorem C07_frame_le_mps : forall ls, Forall label_ok ls ->
+    let st := fst (l_run init ls) in
+    frames_within mps_b (l_ab st) /\ frames_within mps_a (l_ba st).
+  Proof. exact (frame_le_mps ka kb cid_a cid_b mtu_a mps_a cr_a mtu_b mps_b cr_b Ha Hb). Qed.
+
+  (* every SDU a receiver reassembles is within the MTU it advertised *)
+  Theorem C07_sdu_le_mtu : forall ls, Forall label_ok ls ->
+    let st := fst (l_run init ls) in
+    (forall d, lr_sink_b (l_step st DeliverAB) = Some d -> 1 <= zlen d <= mtu_b) /\
+    (forall d, lr_sink_a (l_step st DeliverBA) = Some d -> 1 <= zlen d <= mtu_a).
+  Proof. exact (sdu_le_mtu ka kb cid_a cid_b mtu_a mps_a cr_a mtu_b mps_b cr_b Ha Hb). Qed.
+
+  (* no K-frame and no credit packet is dropped by the CID lookups, and the
+     reassembly never overflows, whatever the two identifiers are *)
+  Theorem C07_credits_routed : forall ls, Forall label_ok ls -> Forall clean (snd (l_run init ls)).
+  Proof. exact (credits_routed ka kb cid_a cid_b mtu_a mps_a cr_a mtu_b mps_b cr_b Ha Hb). Qed.
+
+  (* not stuck: as long as something written is undelivered or a drain() is
+     pending, a wire is non-empty, i.e. a delivery step is enabled *)
+  Theorem C07_progress : forall ls, Forall label_ok ls ->
+    let '(st, rs) := l_run init ls in
+    (written_a ls <> sunk_b rs \/ written_b ls <> sunk_a rs \/
+     s_drained (e_snd (l_a st)) = false \/ s_drained (e_snd (l_b st)) = false) ->
+    l_ab st <> [] \/ l_ba st <> [].
+  Proof. exact (progress ka kb cid_a cid_b mtu_a mps_a cr_a mtu_b mps_b cr_b Ha Hb). Qed.
+
+  (* termination: from any reachable state, with no further writes, every schedule of
+     enabled deliveries is finite (bounded by lmeasure) and one of them empties both
+     wires; by C07_stream_exact the transfer is then complete in both directions *)
+  Theorem C07_progress_terminates : forall ls, Forall label_ok ls ->
+    let st := fst (l_run init ls) in
+    (forall ds, l_all_enabled st ds -> zlen ds <= lmeasure st) /\
+    (exists ds, l_all_enabled st ds /\ l_ab (fst (l_run st ds)) = [] /\ l_ba (fst (l_run st ds)) = []).
+  Proof. exact (progress_terminates ka kb cid_a cid_b mtu_a mps_a cr_a mtu_b mps_b cr_b Ha Hb). Qed.
+End C07.
+Print Assumptions C07_stream_exact.
+Print Assumptions C07_credit_safe.
+Print Assumptions C07_frame_le_mps.
+Print Assumptions C07_sdu_le_mtu.
+Print Assumptions C07_credits_routed.
+Print Assumptions C07_progress.
+Print Assumptions C07_progress_terminates.
+
+(* ---- one direction of a channel (sender half, receiver half, frames one way,
+   credits the other): the inductive invariant and termination of deliveries *)
+Theorem C07_view_invariant : forall credits mtu mps ls,
+  1 <= credits -> 1 <= mtu < 65536 -> 1 <= mps -> Forall vlabel_ok ls ->
+  vinv (v_run (v_init credits mtu mps) ls).
+Proof. intros. apply vinv_run; [apply vinv_init|]; assumption. Qed.
+Print Assumptions C07_view_invariant.
+
+(* with no further writes, every sequence of enabled deliveries is at most
+   [measure] long ... *)
+Theorem C07_progress_bounded : forall v ls, vinv v -> all_enabled v ls -> zlen ls <= measure v.
+Proof. intros v ls. exact (deliveries_bounded ls v). Qed.
+Print Assumptions C07_progress_bounded.
+
+(* ... a delivery is enabled until the transfer is complete ... *)
+Theorem C07_progress_enabled : forall v, vinv v -> ~ v_final v -> enabled v VFrame \/ enabled v VCredit.
+Proof. exact not_final_enabled. Qed.
+Print Assumptions C07_progress_enabled.
+
+(* ... and when none is, everything written has reached the sink and drain() is done *)
+Theorem C07_quiescent_is_final : forall v, vinv v -> v_quiet v -> v_final v.
+Proof. exact vinv_quiet_final. Qed.
+Print Assumptions C07_quiescent_is_final.
+
+(* ---- manager tables with any number of channels: a K-frame for a channel's source
+   CID and a credit packet for its destination CID reach that channel, provided
+   the local CIDs are pairwise distinct and so are the peer's *)
+Theorem C07_tables_route_frame : forall cs c d,
+  NoDup (srcs cs) -> In c cs -> route (file_all lecoc_keysel cs) (PFrame (cd_src c) d) = Some (cd_id c).
+Proof. intros cs c d. exact (route_frame_ok lecoc_keysel cs c d). Qed.
+Print Assumptions C07_tables_route_frame.
+
+Theorem C07_tables_route_credit : forall cs c n,
+  NoDup (dsts cs) -> In c cs -> route (file_all lecoc_keysel cs) (PCredit (cd_dst c) n) = Some (cd_id c).
+Proof. intros cs c n. exact (route_credit_ok lecoc_keysel cs c n (fun _ => eq_refl)). Qed.
+Print Assumptions C07_tables_route_credit.
+
+(* ---- D07 (fixed by fixes/D07.patch): with the enhanced acceptor filed under its
+   source CID the statements above are false *)
+Theorem C07_d07_tables_refuted :
+  exists cs c n, NoDup (srcs cs) /\ NoDup (dsts cs) /\ In c cs /\
+    route (file_all sel_d07 cs) (PCredit (cd_dst c) n) <> Some (cd_id c).
+Proof. exact route_credit_d07_refuted. Qed.
+Print Assumptions C07_d07_tables_refuted.
+
+Theorem C07_d07_stall_refuted :
+  let st0 := l_init KDst (sel_d07 EnhAcceptor) 80 64 64 23 2 64 23 2 in
+  let '(st, rs) := l_run st0 [WriteB (mk_data 0 60); DeliverBA; DeliverBA; DeliverAB; DeliverAB] in
+  existsb lr_dropped rs = true /\ l_ab st = [] /\ l_ba st = [] /\
+  s_sdu (e_snd (l_b st)) <> None /\ s_credits (e_snd (l_b st)) = 0.
+Proof. exact credits_routed_d07_refuted. Qed.
+Print Assumptions C07_d07_stall_refuted.
+
+(* ---- non-vacuity *)
+Example C07_params_satisfiable : params_ok 23 23 1 /\ params_ok 65535 65533 65535.
+Proof. split; constructor; vm_compute; intuition congruence. Qed.
+
+Example C07_run_nonvacuous :
+  let '(st, rs) := l_run (l_init KDst KDst 64 80 23 23 1 30 25 2)
+                         [WriteA (mk_data 0 40); DeliverAB; DeliverAB; DeliverBA; DeliverAB; DeliverBA; DeliverAB; DeliverBA] in
+  sunk_b rs = mk_data 0 40 /\ l_ab st = [] /\ l_ba st = [] /\ Forall label_ok [WriteA (mk_data 0 40)].
+Proof. vm_compute. repeat split. constructor; [discriminate|constructor]. Qed.
